@@ -9,6 +9,8 @@ pub enum Edge {
     Builtin,
     Val(usize),
     Arr(usize),
+    /// a zero-length array of the target: still "contains by value" for the purposes of the statement
+    Arr0(usize),
     Base(usize),
     Ptr(usize),
 }
@@ -17,11 +19,11 @@ impl Edge {
     pub fn target(&self) -> Option<usize> {
         match self {
             Edge::Builtin => None,
-            Edge::Val(t) | Edge::Arr(t) | Edge::Base(t) | Edge::Ptr(t) => Some(*t),
+            Edge::Val(t) | Edge::Arr(t) | Edge::Arr0(t) | Edge::Base(t) | Edge::Ptr(t) => Some(*t),
         }
     }
     pub fn by_value(&self) -> bool {
-        matches!(self, Edge::Val(_) | Edge::Arr(_) | Edge::Base(_))
+        matches!(self, Edge::Val(_) | Edge::Arr(_) | Edge::Arr0(_) | Edge::Base(_))
     }
 }
 
@@ -52,6 +54,7 @@ pub fn all_edges(n: usize) -> Vec<Edge> {
     for t in 0..=n {
         v.push(Edge::Val(t));
         v.push(Edge::Arr(t));
+        v.push(Edge::Arr0(t));
         v.push(Edge::Base(t));
         v.push(Edge::Ptr(t));
     }
@@ -126,6 +129,7 @@ pub fn build_case(n: usize, edges: &[Vec<Edge>], assign: &[usize], decl_order: &
                 Edge::Builtin => (FieldS::new(&fname, MTy::b("u32")), "u32".to_string()),
                 Edge::Val(tt) => (FieldS::new(&fname, MTy::user(&tname(*tt, n))), rust_path(*tt)),
                 Edge::Arr(tt) => (FieldS::new(&fname, MTy::user(&tname(*tt, n)).arr(2)), format!("[{};2]", rust_path(*tt))),
+                Edge::Arr0(tt) => (FieldS::new(&fname, MTy::user(&tname(*tt, n)).arr(0)), format!("[{};0]", rust_path(*tt))),
                 Edge::Base(tt) => (FieldS::new(&fname, MTy::user(&tname(*tt, n))).based(), rust_path(*tt)),
                 Edge::Ptr(tt) => (FieldS::new(&fname, MTy::user(&tname(*tt, n)).cptr()), format!("*const {}", rust_path(*tt))),
             };
